@@ -371,6 +371,9 @@ class P:
         d = self - o
         if not _isinstance(d, P):
             d = P.const(d)
+        d = simplify_roots(d)
+        if not _isinstance(d, P):
+            d = P.const(d)
         d = d.cleared()
         if not _isinstance(d, P):
             d = P.const(d)
@@ -528,6 +531,115 @@ def _isqrt_frac(c):
     return None
 
 
+def _order_key(m, syms):
+    d = dict(m)
+    return tuple(d.get(x, 0) for x in syms)
+
+
+def poly_divide(N, D):
+    """exact multivariate division N / D (D with non-negative exponents); returns the quotient P or None"""
+    if not _isinstance(N, P) or not _isinstance(D, P) or not D.t:
+        return None
+    syms = sorted(N.symbols() | D.symbols())
+    dl = max(D.t, key=lambda m: _order_key(m, syms))
+    dc = D.t[dl]
+    dld = dict(dl)
+    rem = dict(N.t)
+    quo = {}
+    for _ in range(4000):
+        if not rem:
+            return P(quo) if quo else 0
+        lt = max(rem, key=lambda m: _order_key(m, syms))
+        ld = dict(lt)
+        qm = {}
+        ok = True
+        for x in set(ld) | set(dld):
+            e = ld.get(x, 0) - dld.get(x, 0)
+            if dld.get(x, 0) > 0 and ld.get(x, 0) < dld.get(x, 0) and ld.get(x, 0) >= 0:
+                ok = False
+                break
+            if e != 0:
+                qm[x] = e
+        if not ok:
+            return None
+        qmt = tuple(sorted(qm.items()))
+        qc = rem[lt] / dc
+        quo[qmt] = quo.get(qmt, 0) + qc
+        for m, c in D.t.items():
+            mm = _mono_mul(m, qmt)
+            nc = rem.get(mm, 0) - qc * c
+            if nc == 0:
+                rem.pop(mm, None)
+            else:
+                rem[mm] = nc
+        if len(rem) > 20000:
+            return None
+    return None
+
+
+def simplify_roots(p):
+    """cancel negative even powers of root symbols against their radicands where the numerator is divisible:
+    N * rho^-2 -> N / rad(rho) when rad | N."""
+    if not _isinstance(p, P):
+        return p
+    T = tab()
+    for _ in range(12):
+        negs = set()
+        for m in p.t:
+            for s_, e in m:
+                if e <= -2 and T.kind[s_] == 'root':
+                    negs.add(s_)
+        progressed = False
+        for s_ in sorted(negs):
+            # group the terms carrying rho^e with e <= -2, by exponent
+            groups = {}
+            rest = {}
+            for m, c in p.t.items():
+                e = dict(m).get(s_, 0)
+                if e <= -2:
+                    base = tuple(x for x in m if x[0] != s_)
+                    groups.setdefault(e, {})[base] = c
+                else:
+                    rest[m] = c
+            newp = P(dict(rest)) if rest else 0
+            changed = False
+            for e, terms in groups.items():
+                q = poly_divide(P(terms), T.rad[s_]) if not _has_neg(T.rad[s_]) else None
+                if q is None:
+                    part = P({_mono_mul(m, ((s_, e),)): c for m, c in terms.items()})
+                else:
+                    changed = True
+                    if _isinstance(q, P):
+                        part = P({(_mono_mul(m, ((s_, e + 2),)) if e + 2 != 0 else m): c for m, c in q.t.items()})
+                    else:
+                        part = 0
+                newp = newp + part
+            if changed:
+                progressed = True
+                p = newp
+                if not _isinstance(p, P):
+                    return p
+        if not progressed:
+            break
+    return p
+
+
+def _proportional_root(p):
+    """if p == k * m^2 * rad(rho_j) for an existing root (k a rational square, m a monomial), return sqrt(k)*m*rho_j"""
+    T = tab()
+    for key, j in T.rootmemo.items():
+        rad = T.rad[j]
+        if _has_neg(rad) or len(rad.t) != len(p.t):
+            continue
+        q = poly_divide(p, rad)
+        if _isinstance(q, P) and q.is_monomial():
+            (m, c), = q.t.items()
+            rc = _isqrt_frac(c)
+            if rc is not None and all(e % 2 == 0 and (T.pos[x] or T.kind[x] == 'root') for x, e in m):
+                return P({tuple((x, e // 2) for x, e in m): rc}) * P.sym(j)
+    return None
+
+
 def sqrt(p, assume_pos=False):
     c = _num(p)
     if c is not None:
@@ -541,6 +653,10 @@ def sqrt(p, assume_pos=False):
         unsupported('sqrt of %s' % type(p).__name__)
     if p.is_zero():
         return 0
+    p = simplify_roots(p)
+    c = _num(p)
+    if c is not None:
+        return sqrt(c)
     T = tab()
     if p.is_monomial():
         (m, c), = p.t.items()
@@ -550,6 +666,9 @@ def sqrt(p, assume_pos=False):
     k = p.key()
     if k in T.rootmemo:
         return P.sym(T.rootmemo[k])
+    pr = _proportional_root(p)
+    if pr is not None:
+        return pr
     sk = p.sign_known()
     if sk is not None and sk < 0:
         unsupported('sqrt of a negative quantity')
